@@ -12,6 +12,7 @@ from vf.world.proj import Project
 from gwf.core import hash_spec
 
 META = {
+    "solver_reasoned": 'selectors (record situations, step kinds, rejected-submission index).',
     "real": ["gwf.core.FileSpecHashes.__init__/has_changed/update/invalidate/close", "gwf.core.NoopSpecHashes", "gwf.core.get_spec_hashes", "gwf.core.hash_spec", "gwf.scheduling.submit_backend/should_run/schedule",
              "gwf.plugins.{run,status,touch,clean}.* (bodies)", "gwf.conf.FileConfig (use_spec_hashes)", "gwf.backends.slurm + TrackingBackend (acceptance / rejection of submissions)"],
     "stubs": ["VFS", "scheduler simulator with a fault at the k-th sbatch (rejected submission)", "workflow loading; a spec edit = the Target's spec text changed between invocations"],
